@@ -6,7 +6,9 @@ import (
 	"go/constant"
 	"go/token"
 	"go/types"
+	"golibcheck/internal/paths"
 	"regexp"
+	"strings"
 
 	"golibcheck/internal/core"
 )
@@ -197,5 +199,108 @@ func swappedArgsLint(p *core.Program, r *core.Report, rule string, relPkgs []str
 		if n > 0 || len(probs) > 0 {
 			fileProbs(r, rule, core.FuncName(fi.Obj), p.Pos(fi.Decl.Pos()), uniq(probs), fmt.Sprintf("%d call(s) pass same-named variables in parameter order", n))
 		}
+	}
+}
+
+// gzipClosedBeforeRead: a gzip/zlib/flate writer emits its last block and trailer in Close(). The
+// bytes of the underlying buffer are complete only after a Close() that has already RUN: on every
+// path that reads the buffer (Bytes()/String()) a non-deferred Close() of the compressor precedes
+// the read. One obligation per function of the given packages that creates a compressing writer.
+func gzipClosedBeforeRead(p *core.Program, r *core.Report, rule string, relPkgs []string) {
+	in := map[string]bool{}
+	for _, k := range relPkgs {
+		in[k] = true
+	}
+	for _, fi := range p.Funcs {
+		if !in[core.RelPkg(fi.Pkg.PkgPath)] || fi.Decl.Body == nil {
+			continue
+		}
+		info := fi.Pkg.TypesInfo
+		// the compressor local(s) and the buffer(s) they write into
+		comp := map[types.Object]types.Object{}
+		ast.Inspect(fi.Decl.Body, func(n ast.Node) bool {
+			as, ok := n.(*ast.AssignStmt)
+			if !ok || len(as.Rhs) != 1 || len(as.Lhs) < 1 {
+				return true
+			}
+			call, ok := ast.Unparen(as.Rhs[0]).(*ast.CallExpr)
+			if !ok || len(call.Args) < 1 {
+				return true
+			}
+			fn := calleeFunc(info, call)
+			if fn == nil || fn.Pkg() == nil || !strings.HasPrefix(fn.Pkg().Path(), "compress/") || !strings.HasPrefix(fn.Name(), "NewWriter") {
+				return true
+			}
+			lid, ok := as.Lhs[0].(*ast.Ident)
+			a0 := ast.Unparen(call.Args[0])
+			if u, isU := a0.(*ast.UnaryExpr); isU && u.Op == token.AND {
+				a0 = ast.Unparen(u.X)
+			}
+			bid, ok2 := a0.(*ast.Ident)
+			if ok && ok2 {
+				comp[info.ObjectOf(lid)] = info.ObjectOf(bid)
+			}
+			return true
+		})
+		if len(comp) == 0 {
+			continue
+		}
+		bufs := map[types.Object]bool{}
+		for _, b := range comp {
+			bufs[b] = true
+		}
+		ps, over := paths.Enumerate(fi.Decl.Body, paths.Config{Info: info,
+			Classify: func(n ast.Node) []paths.Event {
+				var out []paths.Event
+				if _, isDefer := n.(*ast.DeferStmt); isDefer {
+					return nil
+				}
+				ast.Inspect(n, func(m ast.Node) bool {
+					call, ok := m.(*ast.CallExpr)
+					if !ok {
+						return true
+					}
+					sel, ok := call.Fun.(*ast.SelectorExpr)
+					if !ok {
+						return true
+					}
+					id, ok := ast.Unparen(sel.X).(*ast.Ident)
+					if !ok {
+						return true
+					}
+					o := info.ObjectOf(id)
+					if _, isComp := comp[o]; isComp && sel.Sel.Name == "Close" {
+						out = append(out, paths.Event{Kind: "ZCLOSE", Pos: call.Pos()})
+					}
+					if bufs[o] && (sel.Sel.Name == "Bytes" || sel.Sel.Name == "String") {
+						out = append(out, paths.Event{Kind: "ZREAD", Pos: call.Pos()})
+					}
+					return true
+				})
+				return out
+			}})
+		c := core.FuncName(fi.Obj)
+		pos := p.Pos(fi.Decl.Pos())
+		if over {
+			r.Undec(rule, c, pos, "too many paths")
+			continue
+		}
+		bad := ""
+		reads := 0
+		for _, pa := range ps {
+			ri := pa.Index("ZREAD")
+			if ri < 0 {
+				continue
+			}
+			reads++
+			ci := pa.Index("ZCLOSE")
+			if ci < 0 || ci > ri {
+				bad = p.Pos(pa[ri].Pos)
+			}
+		}
+		if reads == 0 {
+			continue
+		}
+		r.Check(bad == "", rule, c, pos, "the compressor is closed before its buffer is read", "the compressed bytes are read at "+bad+" before the compressor's Close() has run (a deferred Close runs after the read): the stream lacks its final block and trailer and cannot be decompressed")
 	}
 }
